@@ -60,6 +60,8 @@ class ProxFactory(object):
         lst = af.proxes.setdefault(key, [])
         if isinstance(sigma, ip.Obj):
             ls = fr.st.lower(content(sigma))
+        elif hasattr(sigma, 'nd_content'):
+            ls = fr.st.lower(sigma.nd_content)          # array-valued step size (np.asarray of an element): its values at the call
         else:
             ls = core._sc(sigma)
         for (l0, op) in lst:
